@@ -898,6 +898,10 @@ class Verifier:
         ordinal = self.loop_ordinal(f.node, node)
         if ordinal in getattr(cls, "unwind", {}):
             return self.unwind_loop(ip, st, node, cls, ordinal, cls.unwind[ordinal])
+        if getattr(self, "bounded", None):
+            # re-check mode (see checker.py): loops are executed exactly, up to `bounded` iterations, instead of being cut by
+            # their invariant - paths that need more iterations are dropped, nothing is havocked
+            return self.bounded_unroll(ip, st, node, iterable, self.bounded)
         if ordinal not in cls.invariants:
             raise Unsupported("no invariant for loop %d of %s" % (ordinal, cls.qualname))
         invs = cls.invariants[ordinal]
@@ -926,6 +930,15 @@ class Verifier:
 
         # 1. invariant holds on entry (variables first bound inside the loop are arbitrary there)
         decl0 = cls.loop_locals.get(ordinal, {})
+        body_names = set(self.assigned_names(node.body))
+        if is_for:
+            body_names |= {x.id for x in ast.walk(node.target) if isinstance(x, ast.Name)}
+        for nm in decl0:
+            if nm not in body_names and nm not in fr.locals:
+                # the contract describes a variable this loop no longer has (renamed / removed): what the clauses say about
+                # it would be about an unrelated arbitrary value
+                raise Unsupported("loop variable %s, declared by the contract for loop %d of %s, is not a variable of that loop"
+                                  % (nm, ordinal, cls.qualname))
         for nm, sp in decl0.items():
             if nm not in fr.locals:
                 made = list(self.make(st, sp, nm + "@entry"))
@@ -976,6 +989,52 @@ class Verifier:
             outs_all.extend(self._loop_iteration(ip, s0, node, cls, ordinal, invs, is_for, idx_name, elem_of, n_term,
                                                  env_of, label, old, floor))
         return outs_all
+
+    def bounded_unroll(self, ip, st, node, iterable, K):
+        is_for = isinstance(node, ast.For)
+        elem_of = n_term = None
+        if is_for:
+            elem_of, n_term = self.iter_model(ip, st, iterable)
+        outs, cur = [], [st]
+        for k in range(K + 1):
+            nxt = []
+            for s0 in cur:
+                branches = []
+                if is_for:
+                    branches = list(ip.branch(s0, Sym("bool", tm.Lt(tm.Int(k), n_term))))
+                else:
+                    for st1, c in ip.eval(node.test, s0):
+                        if isinstance(c, Raise):
+                            outs.append((st1, ("raise", c.exc)))
+                        else:
+                            branches.extend(ip.branch(st1, ip.truth(st1, c)))
+                for st2, b in branches:
+                    if not b:
+                        if node.orelse:
+                            outs.extend(ip.exec_block(node.orelse, st2))
+                        else:
+                            outs.append((st2, ("normal",)))
+                        continue
+                    if k == K:
+                        continue            # beyond the bound: this path is not explored
+                    if is_for:
+                        bodies = []
+                        for s3, o in ip.assign(st2, node.target, elem_of(st2, tm.Int(k))):
+                            if o[0] != "normal":
+                                outs.append((s3, o))
+                            else:
+                                bodies.extend(ip.exec_block(node.body, s3))
+                    else:
+                        bodies = ip.exec_block(node.body, st2)
+                    for s3, o in bodies:
+                        if o[0] in ("normal", "continue"):
+                            nxt.append(s3)
+                        elif o[0] == "break":
+                            outs.append((s3, ("normal",)))
+                        else:
+                            outs.append((s3, o))
+            cur = nxt
+        return outs
 
     @staticmethod
     def loop_self_fields(cls, ordinal):
